@@ -47,7 +47,7 @@ func runC05(e *Env) {
 	ruleDeleg(e, "C05.deleg", "uu")
 	e.S.Floor("C05.deleg", 12)
 	e.S.Floor("C05.layout", 12)
-	e.S.Floor("C05.nib", 2)
+	e.S.Floor("C05.nib", 7)
 	e.S.Floor("C05.digit", 6)
 	e.S.Floor("C05.strict", 8)
 	e.S.Floor("C05.ver", 9)
@@ -70,21 +70,46 @@ func ruleC05Reject(e *Env) {
 	calls := e.C.Calls(dp, isPD)
 	// the digit loop may live in a helper the parser calls (one level): the helper reports a refused digit through a
 	// false boolean result, which the parser in turn must test
-	var helper *ssa.Function
-	var via *ssa.Call
-	var vias []*ssa.Call
-	if len(calls) == 0 {
+	// every helper the parser calls (one level) that holds a digit-function call is inspected, next to the parser's
+	// own calls; a call further down is not followed
+	type group struct {
+		helper *ssa.Function
+		vias   []*ssa.Call
+		calls  []*ssa.Call
+	}
+	groups := []group{{calls: calls}}
+	total := len(calls)
+	{
+		byHelper := map[*ssa.Function]int{}
 		for _, c := range e.C.Calls(dp, flow.InRepo) {
 			h := flow.Origin(e.C.StaticCallee(&c.Call))
-			if hc := e.C.Calls(h, isPD); len(hc) > 0 && helper == nil {
-				helper, via, calls = h, c, hc
+			if h == nil || h == pd || h == dp {
+				continue
 			}
-			if helper != nil && h == helper {
-				vias = append(vias, c) // every call of the helper: each one's verdict must be tested
+			gi, seen := byHelper[h]
+			if !seen {
+				hc := e.C.Calls(h, isPD)
+				if len(hc) == 0 {
+					// deeper: a digit-function call two levels down is outside what this rule reads
+					for _, c2 := range e.C.Calls(h, flow.InRepo) {
+						if h2 := flow.Origin(e.C.StaticCallee(&c2.Call)); h2 != nil && h2 != pd && len(e.C.Calls(h2, isPD)) > 0 {
+							e.S.Unk(rule, site, "invalid digit", "the digit function is called two levels below the parser ("+flow.FnName(h2)+"): its verdict is not followed that far", e.posOf(c2))
+						}
+					}
+					byHelper[h] = -1
+					continue
+				}
+				groups = append(groups, group{helper: h, calls: hc})
+				gi = len(groups) - 1
+				byHelper[h] = gi
+				total += len(hc)
+			}
+			if gi > 0 {
+				groups[gi].vias = append(groups[gi].vias, c)
 			}
 		}
 	}
-	if len(calls) == 0 {
+	if total == 0 {
 		e.S.Unk(rule, site, "invalid digit", "the parser does not call the digit function", e.Pos(dp))
 	}
 	// falseEdge: the successor taken when the boolean v is false, for a branch on v or on !v
@@ -111,91 +136,153 @@ func ruleC05Reject(e *Env) {
 		walk(v, false)
 		return out
 	}
+	// viasTest: every call of the helper has its j-th result tested, the false edge leading only to error returns
+	viasTest := func(vias []*ssa.Call, j int) bool {
+		all := len(vias) > 0
+		for _, v1 := range vias {
+			tested := false
+			for _, vr := range *v1.Referrers() {
+				if vex, ok := vr.(*ssa.Extract); ok && vex.Index == j {
+					for _, vfe := range falseEdges(vex) {
+						if flow.LeadsOnlyToErrors(vfe) {
+							tested = true
+						}
+					}
+				}
+			}
+			if !tested {
+				all = false
+			}
+		}
+		return all
+	}
 	perm := e.ParamPerm("uu", "parseDigit", pd)
-	for _, call := range calls {
-		// the ok result branches, and its false edge leads only to error returns
-		decided := false
-		for _, r := range *call.Referrers() {
-			ex, ok := r.(*ssa.Extract)
-			if !ok || !types.Identical(ex.Type(), types.Typ[types.Bool]) {
-				continue
-			}
-			for _, fe := range falseEdges(ex) {
-				decided = true
-				rejects := false
-				if helper == nil {
-					rejects = flow.LeadsOnlyToErrors(fe)
-				} else {
-					// in the helper: only returns with one and the same boolean result false …
-					for j := 0; j < helper.Signature.Results().Len() && !rejects; j++ {
-						if !types.Identical(helper.Signature.Results().At(j).Type(), types.Typ[types.Bool]) {
-							continue
-						}
-						j := j
-						if !flow.LeadsOnlyToReturns(fe, func(ret *ssa.Return) bool {
-							vals := flow.ReturnValues(ret)
-							if j >= len(vals) {
-								return false
+	for _, g := range groups {
+		helper, vias := g.helper, g.vias
+		for _, call := range g.calls {
+			// the ok result branches, and its false edge leads only to error returns
+			decided := false
+			for _, r := range *call.Referrers() {
+				ex, ok := r.(*ssa.Extract)
+				if !ok || !types.Identical(ex.Type(), types.Typ[types.Bool]) {
+					continue
+				}
+				for _, fe := range falseEdges(ex) {
+					decided = true
+					rejects := false
+					if helper == nil {
+						rejects = flow.LeadsOnlyToErrors(fe)
+					} else {
+						// in the helper: only returns with one and the same boolean result false …
+						for j := 0; j < helper.Signature.Results().Len() && !rejects; j++ {
+							if !types.Identical(helper.Signature.Results().At(j).Type(), types.Typ[types.Bool]) {
+								continue
 							}
-							c, isC := vals[j].(*ssa.Const)
-							return isC && c.Value != nil && c.Value.Kind() == constant.Bool && !constant.BoolVal(c.Value)
-						}) {
-							continue
-						}
-						// … which the parser tests, its false edge leading only to error returns
-						all := len(vias) > 0
-						for _, v1 := range vias {
-							tested := false
-							for _, vr := range *v1.Referrers() {
-								if vex, ok := vr.(*ssa.Extract); ok && vex.Index == j {
-									for _, vfe := range falseEdges(vex) {
-										if flow.LeadsOnlyToErrors(vfe) {
-											tested = true
-										}
-									}
+							j := j
+							if !flow.LeadsOnlyToReturns(fe, func(ret *ssa.Return) bool {
+								vals := flow.ReturnValues(ret)
+								if j >= len(vals) {
+									return false
 								}
+								c, isC := vals[j].(*ssa.Const)
+								return isC && c.Value != nil && c.Value.Kind() == constant.Bool && !constant.BoolVal(c.Value)
+							}) {
+								continue
 							}
-							if !tested {
-								all = false
+							// … which the parser tests, its false edge leading only to error returns
+							rejects = viasTest(vias, j)
+						}
+					}
+					if rejects {
+						e.S.Ok(rule, site, "invalid digit", "a byte the digit function refuses leads only to error returns", e.posOf(call))
+					} else {
+						e.S.Bad(rule, site, "invalid digit", "a byte the digit function refuses does not always end in an error: a non-hexadecimal digit can be accepted", e.posOf(call), "00000000-0000-0000-zzzz-zzzzzzzzzzzz")
+					}
+				}
+			}
+			if !decided && helper != nil {
+				// the helper hands the verdict on as it came (`return parseDigit(…)`): the parser tests that result
+				for _, r := range *call.Referrers() {
+					ex, ok := r.(*ssa.Extract)
+					if !ok || !types.Identical(ex.Type(), types.Typ[types.Bool]) || ex.Referrers() == nil || len(*ex.Referrers()) == 0 {
+						continue
+					}
+					j, passed := -1, true
+					for _, rr := range *ex.Referrers() {
+						ret, isRet := rr.(*ssa.Return)
+						if !isRet {
+							passed = false
+							break
+						}
+						for k, v := range ret.Results {
+							if v == ssa.Value(ex) {
+								if j >= 0 && j != k {
+									passed = false
+								}
+								j = k
 							}
 						}
-						rejects = all
 					}
-				}
-				if rejects {
-					e.S.Ok(rule, site, "invalid digit", "a byte the digit function refuses leads only to error returns", e.posOf(call))
-				} else {
-					e.S.Bad(rule, site, "invalid digit", "a byte the digit function refuses does not always end in an error: a non-hexadecimal digit can be accepted", e.posOf(call), "00000000-0000-0000-zzzz-zzzzzzzzzzzz")
-				}
-			}
-		}
-		if !decided {
-			e.S.Bad(rule, site, "invalid digit", "the digit function's verdict is not tested directly (the ok result must decide a branch whose false edge only returns errors)", e.posOf(call), "")
-		}
-		// the upper-case permission is `r & RuleDisableUpperCaseDigits == 0`, nothing more
-		bi := 1
-		if perm != nil && len(perm) == 2 {
-			bi = perm[1]
-		}
-		bit, okBit := tabConstInt(e, "uu", "RuleDisableUpperCaseDigits")
-		gate := false
-		if bi < len(call.Call.Args) && okBit {
-			perm := call.Call.Args[bi]
-			if hp, isParam := perm.(*ssa.Parameter); isParam && helper != nil { // handed down by the parser
-				for pi, p := range helper.Params {
-					if p == hp && pi < len(via.Call.Args) {
-						perm = via.Call.Args[pi]
+					// every return of the helper hands on this verdict
+					for _, b := range helper.Blocks {
+						if ret, isRet := b.Instrs[len(b.Instrs)-1].(*ssa.Return); isRet && passed && (j < 0 || j >= len(ret.Results) || ret.Results[j] != ssa.Value(ex)) {
+							passed = false
+						}
+					}
+					if passed && j >= 0 {
+						decided = true
+						if viasTest(vias, j) {
+							e.S.Ok(rule, site, "invalid digit", "the helper hands the digit function's verdict on, and the parser's test of it leads only to error returns", e.posOf(call))
+						} else {
+							e.S.Bad(rule, site, "invalid digit", "a byte the digit function refuses does not always end in an error: a non-hexadecimal digit can be accepted", e.posOf(call), "00000000-0000-0000-zzzz-zzzzzzzzzzzz")
+						}
 					}
 				}
 			}
-			if e.flagTest(perm, dp.Params[len(dp.Params)-1], bit) == -1 {
-				gate = true
+			if !decided {
+				e.S.Bad(rule, site, "invalid digit", "the digit function's verdict is not tested directly (the ok result must decide a branch whose false edge only returns errors)", e.posOf(call), "")
 			}
-		}
-		if gate {
-			e.S.Ok(rule, site, "upper-case gate", "upper-case digits are admitted exactly when r&RuleDisableUpperCaseDigits == 0", e.posOf(call))
-		} else {
-			e.S.Bad(rule, site, "upper-case gate", "the permission for upper-case digits handed to the digit function is not exactly `r&RuleDisableUpperCaseDigits == 0`: the form the rule disables can get through (or is refused without the rule)", e.posOf(call), "both rules set")
+			// the upper-case permission is `r & RuleDisableUpperCaseDigits == 0`, nothing more
+			bi := 1
+			if perm != nil && len(perm) == 2 {
+				bi = perm[1]
+			}
+			bit, okBit := tabConstInt(e, "uu", "RuleDisableUpperCaseDigits")
+			gate := false
+			if bi < len(call.Call.Args) && okBit {
+				perm := call.Call.Args[bi]
+				rp := dp.Params[len(dp.Params)-1]
+				switch hp, isParam := perm.(*ssa.Parameter); {
+				case helper == nil:
+					gate = e.flagTest(perm, rp, bit) == -1
+				case isParam: // handed down by the parser: at every call of the helper
+					gate = len(vias) > 0
+					for _, v1 := range vias {
+						for pi, p := range helper.Params {
+							if p == hp && (pi >= len(v1.Call.Args) || e.flagTest(v1.Call.Args[pi], rp, bit) != -1) {
+								gate = false
+							}
+						}
+					}
+				default: // computed in the helper from a rule parameter the parser hands down unchanged
+					for pi, p := range helper.Params {
+						if e.flagTest(perm, p, bit) != -1 {
+							continue
+						}
+						gate = len(vias) > 0
+						for _, v1 := range vias {
+							if pi >= len(v1.Call.Args) || v1.Call.Args[pi] != ssa.Value(rp) {
+								gate = false
+							}
+						}
+					}
+				}
+			}
+			if gate {
+				e.S.Ok(rule, site, "upper-case gate", "upper-case digits are admitted exactly when r&RuleDisableUpperCaseDigits == 0", e.posOf(call))
+			} else {
+				e.S.Bad(rule, site, "upper-case gate", "the permission for upper-case digits handed to the digit function is not exactly `r&RuleDisableUpperCaseDigits == 0`: the form the rule disables can get through (or is refused without the rule)", e.posOf(call), "both rules set")
+			}
 		}
 	}
 	// default limit: 0 or at least the URN form (36 + len(\"urn:uuid:\"))
@@ -637,8 +724,51 @@ func ruleC05Strict(e *Env, hyph []int) {
 		}
 		return "", false
 	}
-	domain := func(k string) []int { return []int{0, 1} }
+	domain := func(k string) []int {
+		if strings.HasPrefix(k, "len==") {
+			return []int{-1, 0, 1} // the length is ordered: shorter, equal, longer (a length between two constants is a valuation of its own)
+		}
+		return []int{0, 1}
+	}
 	prune := func(assign map[string]int) bool {
+		// the length atoms must be satisfiable together: some n >= 0 stands in the assigned order to every constant
+		var ks []int64
+		for k := range assign {
+			if strings.HasPrefix(k, "len==") {
+				if n, err := strconv.ParseInt(k[5:], 10, 64); err == nil {
+					ks = append(ks, n)
+				}
+			}
+		}
+		if len(ks) > 0 {
+			sat := false
+			for _, c := range ks {
+				for _, n := range []int64{c - 1, c, c + 1} {
+					if n < 0 {
+						continue
+					}
+					all := true
+					for _, c2 := range ks {
+						want := assign["len=="+strconv.FormatInt(c2, 10)]
+						got := 0
+						if n < c2 {
+							got = -1
+						} else if n > c2 {
+							got = 1
+						}
+						if got != want {
+							all = false
+						}
+					}
+					if all {
+						sat = true
+					}
+				}
+			}
+			if !sat {
+				return false
+			}
+		}
 		eq := map[string]int{}
 		for k, v := range assign {
 			if v != 0 {
@@ -683,6 +813,23 @@ func ruleC05Strict(e *Env, hyph []int) {
 					for k, x := range lf.Assign {
 						if x == 0 && strings.HasPrefix(k, key[:i+2]) && k != key {
 							return 0
+						}
+					}
+				}
+				// the length is ordered: shorter than a smaller constant, or longer than a larger one, is not equal to this one
+				if strings.HasPrefix(key, "len==") {
+					if want, err := strconv.ParseInt(key[5:], 10, 64); err == nil {
+						for k, x := range lf.Assign {
+							if !strings.HasPrefix(k, "len==") {
+								continue
+							}
+							c, err := strconv.ParseInt(k[5:], 10, 64)
+							if err != nil {
+								continue
+							}
+							if (x < 0 && want >= c) || (x > 0 && want <= c) {
+								return 0
+							}
 						}
 					}
 				}
@@ -893,12 +1040,32 @@ func ruleC05Sem(e *Env, rule string) {
 	}
 	site := flow.FnName(dp)
 	pos := e.Pos(dp)
-	const prefix = "urn:uuid:"
-	for _, lay := range []struct {
+	// every layout is read with the rule flags clear and with each flag that leaves it enabled set; the URN layout
+	// also with the prefix's first three letters in upper case (the parser's other accepted spelling)
+	upBit, okUp := tabConstInt(e, "uu", "RuleDisableUpperCaseDigits")
+	urnBit, okUrn := tabConstInt(e, "uu", "RuleDisableURN")
+	if !okUp || !okUrn {
+		e.S.Unk(rule, site, "rule flags", "RuleDisableUpperCaseDigits / RuleDisableURN are not integer constants", pos)
+		return
+	}
+	type layT struct {
 		name   string
 		length int
 		off    int
-	}{{"plain layout", 36, 0}, {"URN layout", 45, len(prefix)}} {
+		flags  int64
+		prefix string
+	}
+	lays := []layT{
+		{"plain layout", 36, 0, 0, ""},
+		{"plain layout [upper-case digits disabled]", 36, 0, upBit, ""},
+		{"plain layout [URN disabled]", 36, 0, urnBit, ""},
+		{"plain layout [both rules]", 36, 0, upBit | urnBit, ""},
+		{"URN layout", 45, 9, 0, "urn:uuid:"},
+		{"URN layout [upper-case digits disabled]", 45, 9, upBit, "urn:uuid:"},
+		{"URN layout [URN:]", 45, 9, 0, "URN:uuid:"},
+	}
+	for _, lay := range lays {
+		prefix := lay.prefix
 		hy := map[int]bool{lay.off + 8: true, lay.off + 13: true, lay.off + 18: true, lay.off + 23: true}
 		// text positions of the 32 digits, in order
 		var digitPos []int
@@ -944,15 +1111,18 @@ func ruleC05Sem(e *Env, rule string) {
 				return 0, false, false // a hexadecimal digit is compared with a constant outside the digit function
 			}
 			if bits, ok := a.(pred.Bits); ok && bs == "0" {
-				for _, bit := range bits.B {
+				for i, bit := range bits.B {
 					if bit.K == '1' {
 						return 1, true, true
 					}
-					if bit.K == 's' && bit.Sym != "r" {
+					if bit.K == 's' && (bit.Sym != "r" || bit.Idx != i) {
 						return 0, false, false
 					}
+					if bit.K == 's' && i < 63 && lay.flags&(1<<uint(i)) != 0 {
+						return 1, true, true // a flag of this reading
+					}
 				}
-				return 0, true, true // rule flags clear
+				return 0, true, true // the rule flags tested here are clear in this reading
 			}
 			return 0, false, false
 		}
